@@ -33,7 +33,10 @@ EXPLANATION = (
     "by finite-model interpretation of their syntax trees (no code of the repository is run; the interpreter walks the trees "
     "on dict/bytes/int model values and follows helpers): the range certainty is 1 exactly when at least one response was "
     "recorded and none failed (all aggregates with 0..3 responses), and every decoded answer 0..3 is counted once in its own "
-    "bucket. Refute-only (sample values, no claim beyond the runs): for every hash mode the BonehExactAlgorithm constructor accepts, "
+    "bucket; the aggregate those answers are counted into is an object created by create_certainty_aggregate for that verification (every value it "
+    "returns is a dict display / comprehension / constructor call / copy or comes from a non-memoised helper, property or function-valued field "
+    "all of whose returns are such; an attribute of the instance, class or module, an entry of such a table or a parameter is a violation). "
+    "Refute-only (sample values, no claim beyond the runs): for every hash mode the BonehExactAlgorithm constructor accepts, "
     "certainty() is interpreted on the aggregate of exactly the honest answers to what attest() attests (the randomised attest(PK, int, bitspace) "
     "replaced by a recorder) and must score the attested value 1 - 2^-n and a sample value with another profile 0 - the attest function and the "
     "reference profile of a mode must hash the value alike. Where the symbolic reading does not recognise how a codec / field method is written, the same interpreter decides "
@@ -5236,18 +5239,286 @@ def _check_hash_pairing(ctx: Ctx) -> None:
               facts=[f"modes accepted by the constructor: {', '.join(accepted)}", f"{runs} model runs"])
 
 
+_FRESH_CTORS = {"dict", "defaultdict", "OrderedDict", "Counter", "list", "set", "dict.fromkeys", "collections.defaultdict", "collections.OrderedDict",
+                "collections.Counter", "OrderedDict.fromkeys", "collections.OrderedDict.fromkeys"}
+_COPY_FUNCS = {"copy", "deepcopy", "copy.copy", "copy.deepcopy"}
+_MEMO_DECORATORS = {"cache", "lru_cache", "cached_property", "functools.cache", "functools.lru_cache", "functools.cached_property"}
+
+
+def _scope_of(n: ast.AST):
+    """the function / lambda / class / module whose namespace a binding at node n goes to (comprehension scopes ignored: they bind no outer name)"""
+    for a in ancestors(n):
+        if isinstance(a, (ast.FunctionDef, ast.AsyncFunctionDef, ast.Lambda, ast.ClassDef, ast.Module)):
+            return a
+    return None
+
+
+def _created_in_call(ctx: Ctx, fi: FuncInfo, e: ast.AST, binds: dict | None = None, depth: int = 4, seen: frozenset = frozenset()):  # noqa: C901, PLR0911, PLR0912
+    """
+    Is the value of expression e (inside function fi) an object CREATED by the current call?  (True, "") when every way to compute
+    it builds a new object (a dict / list / set display or comprehension, a call of a container constructor, a copy, a merge `a | b`,
+    an instantiation of a class, a call of a function / a read of a property all of whose returns are created in that call and
+    which is not memoised); (False, what) when some way to compute it yields an object that exists outside the call (an attribute
+    of the instance / class / module, a module-level name, an entry of such a table, a parameter, a memoised helper); (None, what)
+    when the expression is outside this reading.  `binds` maps the parameters of a followed helper to (caller FuncInfo, argument
+    expression, caller's binds).  Immutable constants count as created (they cannot carry state).
+    """
+    repo = ctx.repo
+    e = strip_cast(e)
+    if isinstance(e, (ast.Dict, ast.DictComp, ast.List, ast.ListComp, ast.Set, ast.SetComp)):
+        return True, ""
+    if isinstance(e, ast.Constant):
+        return True, ""
+    if isinstance(e, ast.NamedExpr):
+        return _created_in_call(ctx, fi, e.value, binds, depth, seen)
+    if isinstance(e, ast.BinOp) and isinstance(e.op, ast.BitOr):
+        return True, ""                                                     # dict | dict, set | set: a new object whatever the operands are
+    if isinstance(e, (ast.IfExp, ast.BoolOp)):
+        parts = [e.body, e.orelse] if isinstance(e, ast.IfExp) else list(e.values)
+        verdicts = [_created_in_call(ctx, fi, p, binds, depth, seen) for p in parts]
+        for want in (False, None):
+            for v in verdicts:
+                if v[0] is want:
+                    return v
+        return True, ""
+
+    def returns_of(target: FuncInfo, tbinds: dict):
+        if isinstance(target.node, ast.Lambda):
+            return _created_in_call(ctx, target, target.node.body, tbinds, depth - 1, seen | {target})
+        memo = [d for d in target.decorator_names() if d in _MEMO_DECORATORS]
+        if memo:
+            return False, f"the result of {target.qualname}, which @{memo[0]} computes once and then hands out again"
+        scope = _scope_of(target.node)                                         # the module / class body the def lives in: the name must denote this def only
+        if isinstance(scope, (ast.Module, ast.ClassDef)):
+            for s in ast.walk(scope):
+                rebound = (isinstance(s, ast.Name) and isinstance(s.ctx, (ast.Store, ast.Del)) and s.id == target.name and _scope_of(s) is scope) or \
+                          (isinstance(s, (ast.FunctionDef, ast.AsyncFunctionDef)) and s is not target.node and s.name == target.name and _scope_of(s) is scope)
+                if rebound:
+                    return None, f"{target.qualname}, whose name is bound a second time in its module / class (line {getattr(s, 'lineno', '?')})"
+        extra = [d for d in target.decorator_names() if d not in ("staticmethod", "classmethod", "property", "override", "typing.override")]
+        if extra:
+            return None, f"{target.qualname} is decorated with @{extra[0]}"
+        if any(isinstance(n, (ast.Yield, ast.YieldFrom)) for n in walk_no_nested(target.node, include_root_defs=False)):
+            return None, f"{target.qualname} is a generator"
+        verdicts = [_created_in_call(ctx, target, r.value, tbinds, depth - 1, seen | {target})
+                    for r in walk_no_nested(target.node, include_root_defs=False) if isinstance(r, ast.Return) and r.value is not None]
+        for want in (False, None):
+            for v in verdicts:
+                if v[0] is want:
+                    return v
+        return True, ""
+
+    if isinstance(e, ast.Call):
+        c = chain(e.func) or ""
+        target_is_repo = None
+        if isinstance(e.func, ast.Name):
+            try:
+                target_is_repo = repo.resolve_name(fi.module, e.func.id)
+            except Exception:  # noqa: BLE001
+                target_is_repo = None
+            if target_is_repo is not None and not isinstance(target_is_repo, FuncInfo) and not isinstance(target_is_repo, tuple):
+                ci = target_is_repo                                            # a class of the repository: instantiation creates an object
+                if getattr(ci, "lookup", None) is not None and ci.lookup("__new__") is None:
+                    return True, ""
+                return None, f"`{norm(e)[:40]}` (a class with its own __new__)"
+        if not isinstance(target_is_repo, FuncInfo):
+            if c in _FRESH_CTORS and (not isinstance(e.func, ast.Name) or not local_defs(fi, e.func.id)):
+                return True, ""
+            if c in _COPY_FUNCS and len(e.args) == 1:
+                return True, ""
+            if isinstance(e.func, ast.Attribute) and e.func.attr == "copy" and not e.args and not e.keywords:
+                return True, ""                                               # x.copy(): a new container (dict / list / set / Counter ...)
+            if isinstance(e.func, ast.Attribute) and e.func.attr in ("setdefault", "get", "__getitem__"):
+                root = e.func.value                                           # table.setdefault(k, d) / table.get(k): an entry of the table, which outlives the call if the table does
+                while isinstance(root, (ast.Attribute, ast.Subscript)):
+                    root = root.value
+                if isinstance(root, ast.Name) and (root.id in ("self", "cls") or (not isinstance(fi.node, ast.Lambda) and not local_defs(fi, root.id) and root.id not in fi.params())):
+                    return False, f"`{norm(e)[:50]}`, an entry of a table stored on the instance / class / module: every call hands out the same object"
+        if depth <= 0:
+            return None, f"`{norm(e)[:40]}` (helper chain too deep)"
+        try:
+            targets = repo.resolve_call(fi, e)
+        except Exception:  # noqa: BLE001
+            targets = []
+        targets = [t for t in targets if t.name != "__init__" or c.endswith("__init__")]
+        if not targets and isinstance(e.func, ast.Attribute) and isinstance(e.func.value, ast.Name) and e.func.value.id in ("self", "cls") and fi.cls is not None:
+            # self.factory(...) where `factory` is a FIELD holding a function (self.factory = helper in a method, factory = staticmethod(helper)
+            # in the class body): every function the field can hold is followed; anything else assigned to it is outside this reading
+            held: list = []
+            for kls in fi.cls.mro():
+                v = kls.lookup_attr(e.func.attr) if getattr(kls, "lookup_attr", None) is not None and kls is fi.cls else None
+                if v is not None:
+                    held.append((None, v))
+                for meth in kls.methods.values():
+                    for n in walk_no_nested(meth.node):
+                        tv = None
+                        if isinstance(n, ast.Assign):
+                            tv = [(t, n.value) for t in n.targets]
+                        elif isinstance(n, ast.AnnAssign) and n.value is not None:
+                            tv = [(n.target, n.value)]
+                        for t, val in tv or []:
+                            if isinstance(t, ast.Attribute) and t.attr == e.func.attr and isinstance(t.value, ast.Name) and t.value.id in ("self", "cls"):
+                                held.append((meth, val))
+                            elif isinstance(t, (ast.Tuple, ast.List)) and any(isinstance(x, ast.Attribute) and x.attr == e.func.attr for x in ast.walk(t)):
+                                return None, f"`{norm(e)[:40]}` (the field is bound by unpacking in {meth.qualname})"
+            for meth, val in held:
+                val = strip_cast(val)
+                if isinstance(val, ast.Call) and chain(val.func) == "staticmethod" and len(val.args) == 1:
+                    val = val.args[0]
+                r = None
+                if isinstance(val, ast.Name) and (meth is None or (not local_defs(meth, val.id) and val.id not in meth.params())):
+                    try:
+                        r = repo.resolve_name(fi.module if meth is None else meth.module, val.id)
+                    except Exception:  # noqa: BLE001
+                        r = None
+                if not isinstance(r, FuncInfo):
+                    return None, f"the result of `{norm(e)[:40]}` (the field can hold `{norm(val)[:30]}`)"
+                if r not in targets:
+                    targets.append(r)
+            if targets:
+                e = ast.Call(func=ast.Name(id="<field>", ctx=ast.Load()), args=e.args, keywords=e.keywords)   # plain call of the held function: no receiver to skip
+        if not targets:
+            return None, f"the result of `{norm(e)[:40]}` (callee not resolved)"
+        verdicts = []
+        for t in targets:
+            if t in seen:
+                continue
+            if "abstractmethod" in " ".join(t.decorator_names()):
+                continue
+            params = t.params()
+            pos = list(params)
+            if t.cls is not None and "staticmethod" not in t.decorator_names() and isinstance(e.func, ast.Attribute) and pos:
+                pos = pos[1:]
+            tb: dict = {}
+            if not any(isinstance(a, ast.Starred) for a in e.args) and not any(k.arg is None for k in e.keywords):
+                for p, a in zip(pos, e.args):
+                    tb[p] = (fi, a, binds)
+                for k in e.keywords:
+                    if k.arg in params:
+                        tb[k.arg] = (fi, k.value, binds)
+            verdicts.append(returns_of(t, tb))
+        for want in (False, None):
+            for v in verdicts:
+                if v[0] is want:
+                    return v
+        return (True, "") if verdicts else (None, f"the result of `{norm(e)[:40]}` (only abstract / recursive targets)")
+    if isinstance(e, ast.Name):
+        declared = {g for n in ast.walk(fi.node) if isinstance(n, (ast.Global, ast.Nonlocal)) for g in n.names} if not isinstance(fi.node, ast.Lambda) else set()
+        if e.id in declared:
+            return False, f"`{e.id}`, a global / nonlocal variable of {fi.qualname}"
+        defs = local_defs(fi, e.id) if not isinstance(fi.node, ast.Lambda) else []
+        if defs:
+            verdicts = []
+            for _stmt, value, idx in defs:
+                if value is None or idx is not None:
+                    verdicts.append((None, f"`{e.id}` (bound by a loop / with / unpacking in {fi.qualname})"))
+                else:
+                    verdicts.append(_created_in_call(ctx, fi, value, binds, depth, seen))
+            if e.id in fi.params():
+                verdicts.append((False, f"the parameter `{e.id}` of {fi.qualname}") if not binds or e.id not in binds else
+                                _created_in_call(ctx, binds[e.id][0], binds[e.id][1], binds[e.id][2], depth - 1, seen))
+            for want in (False, None):
+                for v in verdicts:
+                    if v[0] is want:
+                        return v
+            return True, ""
+        if e.id in fi.params():
+            if binds and e.id in binds and depth > 0:
+                cfi, arg, cb = binds[e.id]
+                return _created_in_call(ctx, cfi, arg, cb, depth - 1, seen)
+            if binds is not None:
+                return None, f"the parameter `{e.id}` of the helper {fi.qualname}"
+            return False, f"the parameter `{e.id}` of {fi.qualname} (the caller's object)"
+        try:
+            r = repo.resolve_name(fi.module, e.id)
+        except Exception:  # noqa: BLE001
+            r = None
+        if isinstance(r, tuple) and r and r[0] == "const":
+            if isinstance(strip_cast(r[2]), ast.Constant):
+                return True, ""
+            return False, f"the module-level object `{e.id} = {norm(r[2])[:40]}`, which is the same object for every call"
+        return None, f"`{e.id}`"
+    if isinstance(e, (ast.Attribute, ast.Subscript)):
+        base = e
+        while isinstance(base, (ast.Attribute, ast.Subscript)):
+            base = base.value
+        if isinstance(e, ast.Attribute) and isinstance(e.value, ast.Name) and e.value.id in ("self", "cls") and fi.cls is not None:
+            getters = [g for g in repo.dispatch(fi.cls, e.attr) if "property" in " ".join(g.decorator_names())] if depth > 0 else []
+            if getters:
+                verdicts = [returns_of(g, {}) for g in getters if g not in seen]
+                for want in (False, None):
+                    for v in verdicts:
+                        if v[0] is want:
+                            return v
+                return True, ""
+        if isinstance(base, ast.Name):
+            if base.id in ("self", "cls"):
+                return False, f"`{norm(e)[:50]}`, an object stored on the instance: every call hands out the same object"
+            if not isinstance(fi.node, ast.Lambda) and not local_defs(fi, base.id) and base.id not in fi.params():
+                return False, f"`{norm(e)[:50]}`, an object stored at module / class level: every call hands out the same object"
+        return None, f"`{norm(e)[:50]}`"
+    return None, f"`{norm(e)[:50]}`"
+
+
+def _check_aggregate_fresh(ctx: Ctx) -> None:
+    """
+    IdentityAlgorithm.create_certainty_aggregate(attestation) starts ONE verification: the community stores what it returns in the
+    proving cache of that verification and process_challenge_response() counts the answers into it IN PLACE (checked above: the
+    caller's object is updated).  The bit-pair profile the verifier reconstructs is therefore only the profile of the answers of
+    this verification if the aggregate is an object created by that call - a dict display / comprehension, dict(...), a copy, or
+    the result of a helper that creates one on every call (helpers, properties and parameters are followed) - and not an object
+    that lives on the algorithm instance (the community keeps one instance per id_format), on the class or in the module.
+    """
+    repo = ctx.repo
+    anchors = {("BonehExactAlgorithm", "ipv8/attestation/wallet/bonehexact/algorithm.py"), ("PengBaoRangeAlgorithm", "ipv8/attestation/wallet/pengbaorange/algorithm.py")}
+    roots: list[FuncInfo] = []
+    for name, rel in sorted(anchors):
+        cls = repo.cls(name, rel)
+        m = cls.lookup("create_certainty_aggregate")
+        if m is None or "abstractmethod" in " ".join(m.decorator_names()):
+            raise AnalysisError(f"anchor-lost: {name}.create_certainty_aggregate")
+        if m not in roots:
+            roots.append(m)
+    for ci in repo.all_classes():
+        if (ci.name, ci.module.relpath) in anchors or not ci.is_subclass_of("IdentityAlgorithm"):
+            continue
+        m = ci.methods.get("create_certainty_aggregate")
+        if m is not None and "abstractmethod" not in " ".join(m.decorator_names()) and m not in roots:
+            roots.append(m)
+    for m in roots:
+        rets = [r for r in walk_no_nested(m.node, include_root_defs=False) if isinstance(r, ast.Return) and r.value is not None]
+        if not rets:
+            raise AnalysisError(f"anchor-lost: {m.qualname} returns no aggregate")
+        shared = None
+        for r in rets:
+            ok, what = _created_in_call(ctx, m, r.value)
+            if ok is None:
+                raise AnalysisError(f"undecided: {m.qualname}: cannot tell whether the aggregate it returns, {what}, is created by the call")
+            if ok is False and shared is None:
+                shared = what
+        why = ""
+        if shared is not None:
+            why = (f"{m.qualname} does not create the aggregate it returns: it hands out {shared}. process_challenge_response() counts the answers of a verification "
+                   "into that object in place and the community keeps one algorithm instance per id_format, so the answers of one verification stay in the aggregate "
+                   "every later verification starts from: the verifier no longer reconstructs the bit-pair profile of the attested value (the counts exceed the reference "
+                   "profile, the true value scores 0 instead of 1-2^-n; a range aggregate keeps the check results of another proof)")
+        ctx.check(shared is None, "protocol-shape", m, m.node, "the certainty aggregate of a verification is an object created by create_certainty_aggregate for that verification", why,
+                  facts=[f"{len(rets)} return value(s) followed"])
+
+
 def rule_protocol_shape(ctx: Ctx) -> None:
     """
     Two necessary conditions of the protocol clauses that ARE visible in code shape (they do not make the proofs sound):
     a range proof is accepted only on the evidence of at least one verified response, and an incoming attestation is
     matched to the request whose global time it echoes (each request has its own one-time key); every answer is counted once,
-    atomically; and (refute-only) each accepted hash mode scores the honest aggregate of its own attestation 1 - 2^-n.
+    atomically, into an aggregate created for that verification; and (refute-only) each accepted hash mode scores the honest aggregate of its own attestation 1 - 2^-n.
     """
     _use(ctx)
     repo = ctx.repo
     pb = repo.method("PengBaoRangeAlgorithm", "certainty", "ipv8/attestation/wallet/pengbaorange/algorithm.py")
     _check_range_certainty(ctx, pb)
     _check_answer_counted(ctx)
+    _check_aggregate_fresh(ctx)
     _check_hash_pairing(ctx)
     _check_count_atomic(ctx)
     _check_decode_stateless(ctx)
@@ -6100,6 +6371,10 @@ WITNESSES = [
      "old": "    return binary_relativity(sha256_4_as_int(value), 32)\n", "new": "    return binary_relativity(sha256_4_as_int(value), 16)\n"},
     {"name": "profile match no longer rejects an over-full bucket", "file": "ipv8/attestation/wallet/bonehexact/attestation.py", "rule": "protocol-shape",
      "old": "        if v < value[k]:\n            return 0.0\n", "new": ""},
+    {"name": "the empty aggregate is built once in the constructor and handed out to every verification", "file": "ipv8/attestation/wallet/bonehexact/algorithm.py", "rule": "protocol-shape",
+     "old": "        return create_empty_relativity_map()\n", "new": "        if not hasattr(self, \"empty_aggregate\"):\n            self.empty_aggregate = create_empty_relativity_map()\n        return self.empty_aggregate\n"},
+    {"name": "the range aggregate is a per-instance dict that is updated and handed out", "file": "ipv8/attestation/wallet/pengbaorange/algorithm.py", "rule": "protocol-shape",
+     "old": "        return {\"attestation\": attestation}\n", "new": "        self.__dict__.setdefault(\"_aggregate\", {})[\"attestation\"] = attestation\n        return self._aggregate\n"},
     {"name": "request cache is looked up for every outstanding global time", "file": "ipv8/attestation/wallet/community.py", "rule": "protocol-shape",
      "old": "                    for allowed_glob in self.allowed_attestations.get(peer.mid, [])\n                    if allowed_glob == str(dist.global_time).encode()]\n",
      "new": "                    for allowed_glob in self.allowed_attestations.get(peer.mid, [])]\n"},
